@@ -174,12 +174,60 @@ int main(int argc, char **argv) {
     int lambda = args.i("lambda", 128), budget = args.i("gates", 1500), shard = args.i("shard", 0);
     rng.reseed(seed * 1000003ull + lambda + shard * 7919);
     seed_library(seed * 131 + lambda + shard);
+    if (args.s("mode", "netlists") == "keybias") {
+        // many key-switching keys generated exactly as the gate API does (extracted ring key -> LWE key, noise alpha_min of the
+        // in/out parameters): the exact mean each key imposes on every gate output
+        int count = args.i("count", 64);
+        TFheGateBootstrappingParameterSet *p = default_params(lambda);
+        const int n = p->in_out_params->n, NN = p->tgsw_params->tlwe_params->N * p->tgsw_params->tlwe_params->k, t = p->ks_t, bb = p->ks_basebit, base = 1 << bb;
+        char cfgb[64]; snprintf(cfgb, sizeof cfgb, "%s/%s/%dbit", flavor_name(), backend_name(), lambda <= 80 ? 80 : 128);
+        LweParams *Pext = new_LweParams(NN, p->tgsw_params->tlwe_params->alpha_min, 0.25);
+        std::vector<double> biases; double mx = 0, s2 = 0;
+        for (int c = 0; c < count; c++) {
+            LweKey *kin = new_LweKey(Pext), *kout = new_LweKey(p->in_out_params); lweKeyGen(kin); lweKeyGen(kout);
+            LweKeySwitchKey *ks = new_LweKeySwitchKey(NN, t, bb, p->in_out_params);
+            VH_OP("lweCreateKeySwitchKey:keybias:%d", lambda);
+            lweCreateKeySwitchKey(ks, kin, kout);
+            double sum = 0;
+            for (int i = 0; i < NN; i++) for (int j = 0; j < t; j++) for (int h = 1; h < base; h++) {
+                U msg = (U) kin->key[i] * (U) h * ((U) 1 << (32 - (j + 1) * bb));
+                sum += (double) (int32_t) (ref_lwe_phase(&ks->ks[i][j][h], kout->key, n) - msg);
+            }
+            double bias = -(sum / base) / 4294967296.0;
+            biases.push_back(bias); if (fabs(bias) > mx) mx = fabs(bias); s2 += bias * bias;
+            out.evaluations++;
+            delete_LweKeySwitchKey(ks); delete_LweKey(kin); delete_LweKey(kout);
+        }
+        std::string arr = "["; for (size_t i = 0; i < biases.size(); i++) { char b[32]; snprintf(b, sizeof b, "%s%.3e", i ? "," : "", biases[i]); arr += b; } arr += "]";
+        out.stat(J().s("kind", "keybias-sweep").s("config", cfgb).i("keys", count).d("max_abs_expected_output_mean", mx).d("rms", sqrt(s2 / count)).raw("per_key", arr));
+        char cell[96]; snprintf(cell, sizeof cell, "%s:per-key-mean:%d-keys", cfgb, count); out.cell(cell, count); out.cell(std::string(cfgb) + ":per-key-mean");
+        out.sample(J().s("mode", "keybias").s("config", cfgb).i("keys", count).d("max_abs_expected_output_mean", mx));
+        delete_LweParams(Pext); delete_gate_bootstrapping_parameters(p);
+        out.finish();
+        return 0;
+    }
     Net N;
     N.params = default_params(lambda);
     VH_OP("keygen:lambda=%d", lambda);
     N.sk = new_random_gate_bootstrapping_secret_keyset(N.params);
     N.ck = &N.sk->cloud; N.n = N.params->in_out_params->n;
     { char b[64]; snprintf(b, sizeof b, "%s/%s/%dbit", flavor_name(), backend_name(), lambda <= 80 ? 80 : 128); N.cfg = b; }
+    // the mean that THIS key imposes on every bootstrapped output, computed exactly from the key material: the key switch
+    // subtracts one row per (i,j) chosen by a uniformly distributed digit h (h = 0: no row), so the expected contribution of the
+    // key-switching noise is -(1/base) * sum over all rows (i,j,h>=1) of their noise (the blind rotation's noise has mean 0)
+    {
+        const TFheGateBootstrappingParameterSet *gb = N.params; const LweKeySwitchKey *ks = N.sk->cloud.bkFFT->ks;
+        const int n = gb->in_out_params->n, NN = gb->tgsw_params->tlwe_params->N, k = gb->tgsw_params->tlwe_params->k, t = gb->ks_t, bb = gb->ks_basebit, base = 1 << bb;
+        std::vector<int32_t> ext(k * NN); for (int i = 0; i < k; i++) memcpy(&ext[i * NN], N.sk->tgsw_key->tlwe_key.key[i].coefs, 4 * NN);
+        double sum = 0; uint64_t rows = 0;
+        for (int i = 0; i < k * NN; i++) for (int j = 0; j < t; j++) for (int h = 1; h < base; h++) {
+            U msg = (U) ext[i] * (U) h * ((U) 1 << (32 - (j + 1) * bb));
+            sum += (double) (int32_t) (ref_lwe_phase(&ks->ks[i][j][h], N.sk->lwe_key->key, n) - msg); rows++;
+        }
+        double bias = -(sum / base) / 4294967296.0;
+        out.stat(J().s("kind", "keybias").s("config", N.cfg).i("shard", shard).d("expected_output_mean_from_key_switching_rows", bias).u("rows", rows));
+        out.evaluations++;
+    }
     uint64_t start = out.evaluations; int family = 0; std::map<std::string, int> fam_count;
     while ((int) (out.evaluations - start) < budget) {
         int left = budget - (int) (out.evaluations - start);
